@@ -67,6 +67,7 @@ type Obj struct {
 	id    uint64
 	w, r  H
 	Label string
+	vc    vclock
 }
 
 // ---------------------------------------------------------------- tasks / ops
@@ -105,6 +106,7 @@ type Task struct {
 	nspawn   int
 	nobj     int
 	selHand  *Op
+	vc       vclock
 	ByDesign bool // may stay blocked for ever (declared by the harness)
 	Client   bool // spawned by instrumented goirc code (not by the harness)
 }
@@ -163,6 +165,7 @@ type Outcome struct {
 	FinalKey   H
 	Trace      []string // only when Options.Trace
 	NondetMsg  string
+	Races      []RaceInfo
 	Conns      []*Conn // sockets dialled in this run
 	DialAddrs  []string
 	Logs       []LogRec
@@ -243,6 +246,7 @@ type Sched struct {
 	env      *Env
 	nchoice  int
 	rootT    *Task
+	shadows  map[uintptr]*shadow
 	stmtOn   bool
 }
 
@@ -318,6 +322,15 @@ func (s *Sched) newTask(parent *Task, name string, f func()) *Task {
 		parent.nspawn++
 		parent.h = parent.h.Mix(0x5b, uint64(parent.nspawn))
 		s.rehash(parent, old)
+	}
+	if s.opt.StmtMode {
+		if parent != nil {
+			t.vc = parent.vc.copy()
+			parent.vc[parent.idx]++
+		} else {
+			t.vc = vclock{}
+		}
+		t.vc[t.idx] = 1
 	}
 	t.pathH = HashString(t.Path)
 	s.sum.addComm(H{}.Mix(t.pathH, t.h.A, t.h.B))
@@ -668,6 +681,7 @@ func (s *Sched) initObj(o *Obj, kind string) {
 		o.id = s.clockH.Mix(0x0b2, uint64(s.tseq)).A
 	}
 	o.w, o.r = H{}, H{}
+	o.vc = nil
 	if o.Label == "" {
 		o.Label = kind
 	}
